@@ -5,6 +5,8 @@ package wire
 
 import (
 	"encoding/binary"
+	"encoding/hex"
+	"encoding/json"
 	"fmt"
 )
 
@@ -120,6 +122,27 @@ func ParseNotif(body []byte) (Notif, error) {
 type Cap struct {
 	Code  uint8
 	Value []byte
+}
+
+// MarshalJSON renders the value as hex so that replay files are readable.
+func (c Cap) MarshalJSON() ([]byte, error) {
+	return []byte(fmt.Sprintf(`{"code":%d,"value":"%x"}`, c.Code, c.Value)), nil
+}
+
+func (c *Cap) UnmarshalJSON(b []byte) error {
+	var v struct {
+		Code  uint8  `json:"code"`
+		Value string `json:"value"`
+	}
+	if err := json.Unmarshal(b, &v); err != nil {
+		return err
+	}
+	d, err := hex.DecodeString(v.Value)
+	if err != nil {
+		return err
+	}
+	c.Code, c.Value = v.Code, d
+	return nil
 }
 
 func (c Cap) Bytes() []byte {
